@@ -424,8 +424,10 @@ func init() {
 		Level: "exploration",
 		Rule: "one case = a history of up to 24 calls (NewRoot / Add on any node of any live tree / any From-Root operation on any live tree / independent From-Markdown operations) dealt to 1-4 simulated caller tasks that own disjoint trees; " +
 			"the scheduler interleaves the callers between calls and inside calls (counter mutex, reader/writer/callback stubs, disk shim, pipeline hooks of massive calls). Oracle: every operation's result equals the result of the same operation on a tree freshly built from the model, computed after the history. " +
+			"In addition every run enumerates EXHAUSTIVELY all single-caller histories NewRoot(r) followed by up to 4 (thorough: 5) actions over a 12-action alphabet (Add a/b under the first three nodes, output, output with other branch strings, walk, iterator walk, JSON, dry-run mkdir, build-and-print another tree) and applies the same oracle (counts under breakdown: exhaustive.*). " +
 			"non-trivial = the history contains an Add after an operation on the same tree, or at least 2 caller tasks; distinct = different (history, schedule) hash",
 		Case:  caseC13,
+		Exhaustive: exhaustiveC13,
 		Real:  []string{"gtree + gtree/markdown (instrumented copy of /repo working tree) incl. the package-level index counter, simple mode and massive pipeline"},
 		Stubs: []string{"caller tasks and goroutine scheduler", "reader/writer/callback stubs that park", "color.Output routed per caller", "filesystem shim over a tmpfs jail (one target directory per call)"},
 	})
@@ -892,4 +894,132 @@ func settleGoroutines() {
 		}
 		base = n
 	}
+}
+
+// ---- C13: exhaustive histories over a small alphabet ----------------------------------------------------
+
+// The quantifier of C13 asks for all interleavings "exhaustively up to a length bound over a
+// small alphabet". One tree (plus one bystander tree), one caller: after NewRoot("r") every
+// sequence of length <= L over the actions below; every operation's result is compared with
+// the same operation on a freshly built tree. L = 4 (quick) or 5 (thorough).
+var exhActions = []string{
+	"add n0 a", "add n0 b", "add n1 a", "add n1 b", "add n2 a",
+	"output", "output/branch", "walk", "walkiter", "output/json", "mkdir/dry", "other-tree",
+}
+
+func exhaustiveC13(c *Ctx, part, parts int) {
+	L := 4
+	if *fTier == "thorough" {
+		L = 5
+	}
+	A := len(exhActions)
+	jail := newJail()
+	defer removeJail(jail)
+	refCache := map[string]*opResult{}
+	total := 0
+	for l := 0; l <= L; l++ {
+		n := 1
+		for i := 0; i < l; i++ {
+			n *= A
+		}
+		total += n
+	}
+	only, fixed := c.Param("hist")
+	checked := 0
+	idx := -1
+	for l := 0; l <= L; l++ {
+		n := 1
+		for i := 0; i < l; i++ {
+			n *= A
+		}
+		for code := 0; code < n; code++ {
+			idx++
+			if fixed {
+				if idx != only {
+					continue
+				}
+			} else if idx%parts != part {
+				continue
+			}
+			seq := make([]int, l)
+			x := code
+			for i := 0; i < l; i++ {
+				seq[i] = x % A
+				x /= A
+			}
+			if exhRun(c, seq, idx, jail, refCache) {
+				checked++
+			}
+		}
+	}
+	c.st.Add("exhaustive.histories-checked", checked)
+	c.st.Add("exhaustive.space", total/parts)
+	c.st.Sample("exhaustive", map[string]any{"exhaustive_arm": "all histories NewRoot(r) + <= L actions", "L": L, "alphabet": exhActions, "histories_in_space": total})
+}
+
+// exhRun executes one history of the exhaustive space; false if the sequence is not
+// executable (an Add on a node that does not exist).
+func exhRun(c *Ctx, seq []int, idx int, jail string, refCache map[string]*opResult) bool {
+	gtree.SimResetGlobals()
+	model := &MNode{Name: "r"}
+	mnodes := []*MNode{model}
+	root := gtree.NewRoot("r")
+	nodes := []*gtree.Node{root}
+	var hist []string
+	for step, a := range seq {
+		name := exhActions[a]
+		hist = append(hist, name)
+		switch {
+		case strings.HasPrefix(name, "add "):
+			var ni int
+			var nm string
+			fmt.Sscanf(name, "add n%d %s", &ni, &nm)
+			if ni >= len(nodes) {
+				return false
+			}
+			n := nodes[ni].Add(nm)
+			if mnodes[ni].kid(nm) == nil {
+				k := &MNode{Name: nm}
+				mnodes[ni].Kids = append(mnodes[ni].Kids, k)
+				mnodes = append(mnodes, k)
+				nodes = append(nodes, n)
+			}
+		case name == "other-tree":
+			o := gtree.NewRoot("o")
+			o.Add("x").Add("y")
+			gtree.OutputFromRoot(io.Discard, o)
+		default:
+			op := Op{Kind: "output", FromRoot: true}
+			switch name {
+			case "output/branch":
+				op.Branch = branchSets[1]
+			case "walk":
+				op.Kind = "walk"
+			case "walkiter":
+				op.Kind = "walkiter"
+			case "output/json":
+				op.Encode = 1
+			case "mkdir/dry":
+				op.Kind, op.DryRun = "mkdir", true
+			}
+			h := &hCall{Kind: "op", Op: op, Model: model}
+			got := execCall(h, root, jail, 0, false, nil, "")
+			key := model.String() + "|" + op.String()
+			want := refCache[key]
+			if want == nil {
+				want = execCall(h, buildNode(model), jail, 0, false, nil, "")
+				refCache[key] = want
+			}
+			if diff := got.diff(want); diff != "" {
+				aspect := diff
+				if j := strings.IndexAny(aspect, " \n"); j > 0 {
+					aspect = aspect[:j]
+				}
+				c.SetParam("hist", idx)
+				c.Scenario["history"] = append([]string{"NewRoot(r)"}, hist...)
+				c.Failf("C13:result-depends-on-history:from-root:"+op.Kind+":"+aspect+":exhaustive", "history NewRoot(r), %s: the result of action #%d (%s) differs from the result on a freshly built tree %s:\n%s", strings.Join(hist, ", "), step, name, model, diff)
+			}
+		}
+	}
+	return true
 }
